@@ -806,7 +806,7 @@ pub fn execute(sc: &RScenario, opts: &ExecOpts) -> RunReport {
             }
         }
     }
-    if errors.len() > n / 3 + 1 && j.p1 {
+    if errors.len() > n / 3 + 1 {
         j.viol("C07", "C07-b-error-count", format!("{} errors reported for {n} lexemes", errors.len()));
     }
 
